@@ -12,7 +12,8 @@ import gen
 import jobs as J
 import model as M
 from gen import H, O
-from vlib import run_driver_parallel, coq_eval, warm_config, trace_to_coq, unhex
+from vlib import run_driver_parallel, coq_eval, warm_config, trace_to_coq, unhex, cb
+import fsmodel as F
 
 RES = 16 | 2
 
@@ -63,7 +64,9 @@ def gen_jobs(rng, ntrees, per):
             k = rng.choice(["create", "create", "create_file", "remove_file", "remove_dir", "rename"])
             if k == "create":
                 ty = rng.choice(J.CREATE_TYPES)
-                op = {"k": "create", "path": H(p), "type": ty, "mode": rng.choice([0o644, 0o755, 0o600])}
+                # Permissions::from_mode keeps whatever S_IFMT bits the caller's mode word carries (e.g. one read from another inode):
+                # the kind of the new inode must come from the InodeType alone
+                op = {"k": "create", "path": H(p), "type": ty, "mode": rng.choice([0o644, 0o755, 0o600, 0o040750, 0o100640, 0o010644, 0o140600, 0o020660])}
                 if ty == "symlink":
                     op["target"] = H(rng.choice(["a", "/etc/passwd", "../../outside/secret", "nonexistent"]))
                 if ty == "hardlink":
@@ -141,6 +144,7 @@ def run(ck):
     for j in jobs:
         j["op"] = dict(j["op"])
     byid = {j["id"]: j for j in jobs}
+    fh_cases = []
     stats = {"ops": 0, "effects": 0, "refused_no_change": 0, "trailing_slash": 0, "final_symlink": 0, "t1_ok": 0, "t1_bad": 0, "kinds": {}}
     nontrivial = set()
     samples = []
@@ -198,7 +202,14 @@ def run(ck):
                 return o[1] + b"/" + nm
             e_main = expect(mainkey)
             if e_main is None:
-                ck.violation("C14: the operation succeeded although the kernel cannot resolve the parent in-root", dict(desc, parent_oracle=str(orc.get(mainkey))))
+                o_ = orc.get(mainkey)
+                if deny and o_ and o_[0] == "err" and o_[1] == 40:
+                    # possibly the recorded link-budget difference F-H (C01) in the walk to the parent: decided by the model
+                    mk, _ = F.tree_to_mkops(job["tree"], res.get("build_errs", []))
+                    fh_cases.append((len(fh_cases), f"let s := build {mk} in enc_wres (kwalk s {cb(par.hex())} false false) ++ enc_wres (ewalk s {cb(par.hex())} false false)",
+                                     dict(desc, parent_oracle=str(o_))))
+                else:
+                    ck.violation("C14: the operation succeeded although the kernel cannot resolve the parent in-root", dict(desc, parent_oracle=str(o_)))
                 continue
             if op["k"] == "create":
                 want_added = [e_main]
@@ -318,6 +329,16 @@ def run(ck):
             elif len(effects) != 1:
                 ck.violation("C14: after its system call failed, a single-entry operation issued another tree-changing call", desc)
             nontrivial.add(("effect-fault", job["op"]["k"], job["op"].get("type"), job["meta"]["errno"], tag))
+    if fh_cases:
+        evals, cerrs = coq_eval([(c[0], c[1]) for c in fh_cases], header="From PV Require Import FSModel.", tag="c14fh")
+        kf = [f for f in ck.known if f["id"] == "F-H-linkbudget"]
+        for cid, term, desc in fh_cases:
+            got = evals.get(cid)
+            if kf and got is not None and len(got) == 4 and got[0] == 2 and got[2] == 0:
+                # kernel walk: budget exhausted; emulated walk: resolves
+                ck.known_finding(kf[0]["id"], kf[0]["what"])
+            else:
+                ck.violation("C14: the operation succeeded although the kernel cannot resolve the parent in-root", dict(desc, model=got))
     if not ck.proof_broken:
         evals, cerrs = coq_eval([(c[0], c[1]) for c in cases], header="From PV Require Import Replay.", tag="c14")
         if cerrs:
